@@ -516,7 +516,7 @@ func shapesBodyN(c *nd.Ctx, calls int) (res nd.Result) {
 	before := rw.Out.Len()
 	var pn *nd.Panic
 	tag := ""
-	if liveSource && (sh.xmlnsAttr || sh.payload == 2 || form == "Encode(WriterTo)") {
+	if liveSource && (sh.xmlnsAttr || sh.ext || sh.payload == 2 || form == "Encode(WriterTo)") {
 		// a decoder reports the declaration as an attribute by itself;
 		// Encode(WriterTo) is the known finding of the shapes part
 		return nd.Result{Skip: true}
@@ -548,8 +548,11 @@ func shapesBodyN(c *nd.Ctx, calls int) (res nd.Result) {
 		}
 		pre := sh.prebuild(streamNS)
 		if c.Choose(2, "stored-tokens-are-what-a-decoder-reported") == 1 {
-			if sh.xmlnsAttr {
-				return nd.Result{Skip: true} // a decoder reports the declaration by itself
+			if sh.xmlnsAttr || sh.ext {
+				// a decoder reports declarations (xmlns, xmlns:prefix) as attributes by
+				// themselves; what encoding/xml's Encoder makes of those is outside
+				// this check's domain (see DESIGN.md 0.4)
+				return nd.Result{Skip: true}
 			}
 			pre.asDecoded()
 			desc += " (stored tokens as a decoder reports them)"
